@@ -141,7 +141,13 @@ func VH_C02_INT(t, n, B, lmax int) {
 	planB, err := NewOptimizer(q).BuildPlan(st.clone())
 	vAssert(err == nil, "C02/INT-second-build-rejected")
 	rb := vDrainBatch(planB, n+1)
-	vAssert(rb.err == nil, "C02/INT-batch-mode-error")
+	if rb.err != nil {
+		// the vector evaluator does not short-circuit: it may refuse an operand the row filter
+		// never evaluates (an inverted BETWEEN behind a true disjunct). C03 leaves this direction
+		// open (only a completed batch run obliges the row run); nothing to compare
+		vCover("batch-evaluation-refused")
+		return
+	}
 	vAssert(vSameSelection(rb.rows, st, sel), "C02/INT-batch-mode-equals-filtered-full-scan")
 	vCover("rows-compared")
 }
